@@ -1,0 +1,105 @@
+//go:build verif
+
+// Contracts for package engine (property C17), read by /verif/engine (govc). Comments only.
+// Vocabulary: /verif/specs/90_engine.spec|.smt2. Design and limits: /verif/notes/w-c17.md.
+package engine
+
+// The five channels of an Engine are received from only by the actor goroutine (checked
+// syntactically by govc over all functions of the repository).
+//@ actorchan engine.Engine.updateDB receiver engine.Start$1
+//@ actorchan engine.Engine.addWatcher receiver engine.Start$1
+//@ actorchan engine.Engine.removeWatcher receiver engine.Start$1
+//@ actorchan engine.Engine.stop receiver engine.Start$1
+//@ actorchan engine.Engine.hangup receiver engine.Start$1
+
+// Struct invariant of watcher: cancel is always the closure created in Observe (checked at every
+// store to the field), so w.cancel() has the contract of that literal: it sends on removeWatcher.
+//@ fnfield engine.watcher.cancel = (*engine.Engine).Observe$1
+
+// ---- client side: one send (and for Update one receive) each ------------------------------------
+
+//@ func (*Engine).Stop(e)
+//@   tags C17, C10
+//@   requires e != nil && !onActor
+//@   assigns nothing
+//@   modifies sent
+//@   ensures sent == bump(old(sent), e.stop)
+
+//@ func (*Engine).Hangup(e)
+//@   tags C17, C10
+//@   requires e != nil && !onActor
+//@   assigns nothing
+//@   modifies sent
+//@   ensures sent == bump(old(sent), e.hangup)
+
+//@ func (*Engine).Update(e; expr)
+//@   tags C17, C10
+//@   requires e != nil && !onActor
+//@   requires expr != nil
+//@   assigns fresh-only
+//@   modifies sent, rcvd
+//@   ensures onesend: sent == bump(old(sent), e.updateDB)
+//@   ensures onerecv: exists c: Int :: rcvd == bump(old(rcvd), c) && c != e.updateDB
+
+//@ func (*Engine).Observe(e; expr, onupdate, onclose)
+//@   tags C17, C10
+//@   requires e != nil && !onActor
+//@   requires callbacks: expr != nil && onupdate != nil && onclose != nil
+//@   assigns fresh-only
+//@   modifies sent
+//@   ensures sent == bump(old(sent), e.addWatcher)
+//@   ensures result != nil
+
+// the cancel function handed to the client (and stored in watcher.cancel)
+//@ func (*Engine).Observe$1()
+//@   tags C17, C10
+//@   requires captured_e: e != nil
+//@   requires notActor: !onActor
+//@   assigns nothing
+//@   modifies sent
+
+// ---- watcher ------------------------------------------------------------------------------------
+
+// update runs on the actor goroutine (its only callers are arms of the actor loop).
+//@ func (*watcher).update(w; ctx, global)
+//@   tags C17, C10
+//@   requires validWatcher(w)
+//@   requires onActor
+//@   assigns fresh-only
+//@   fnparam * opaque
+//@   abstract defer
+
+//@ func (*watcher).close(w)
+//@   tags C17, C10
+//@   requires nonnil: validWatcher(w)
+//@   assigns fresh-only
+//@   fnparam * opaque
+
+// closeAllWatchers
+//@ func Start$1$1()
+//@   tags C17, C10
+//@   requires watchers != nil && forall k: Int :: has(watchers, k) ==> validWatcher(watchers[k])
+//@   assigns fresh-only
+//@   modifies watchers, map[uint64]*engine.watcher
+//@   ensures watchers != nil && len(watchers) == 0 && forall k: Int :: !has(watchers, k)
+//@   loop 0 invariant true
+
+// ---- the actor goroutine ----------------------------------------------------------------------------
+// Verified as a sequential program: loop 1 is `for { select {...} }`; an invariant over the
+// goroutine-private state (watchers map) plus one `loop 1 ensures` clause per arm obligation.
+// $sel: 0 addWatcher, 1 removeWatcher, 2 updateDB, 3 stop, 4 hangup (source order of the cases).
+//@ func Start$1()
+//@   tags C17, C10
+//@   requires captured_e: e != nil
+//@   requires onActor
+//@   abstract defer
+//@   loop 1 invariant wmap: watchers != nil
+//@   loop 1 invariant valid: forall k: Int :: has(watchers, k) ==> validWatcher(watchers[k])
+//@   loop 1 invariant actor: onActor && e != nil
+//@   loop 2 invariant valid2: watchers != nil && onActor && forall k: Int :: has(watchers, k) ==> validWatcher(watchers[k])
+//@   loop 2 invariant sent2: sent == bump(prev(sent, 1), req.failed)
+//@   loop 2 ensures[C17] notified: lastcall("(*engine.watcher).update", 0) == w && lastcall("(*engine.watcher).update", 2) == fnresult("(rel.Scope).With", prev(global, 1), Root, value)
+//@   loop 1 ensures[C17] answered: $sel == 2 ==> sent == bump(prev(sent), req.failed)
+//@   loop 1 ensures[C17] silent: $sel != 2 ==> sent == prev(sent)
+//@   loop 1 ensures[C17] kept: $sel == 2 && err != nil ==> global == prev(global)
+//@   loop 1 ensures[C17] installed: $sel == 2 && err == nil ==> global == fnresult("(rel.Scope).With", prev(global), Root, value)
